@@ -4,6 +4,9 @@ import (
 	"errors"
 	"io"
 	"net/http"
+	"os"
+	"path"
+	"path/filepath"
 
 	"github.com/CloudyKit/jet/v6"
 )
@@ -27,6 +30,16 @@ func (l *httpFileSystemLoader) Open(name string) (io.ReadCloser, error) {
 
 // Exists implements Loader.Exists() on top of an http.FileSystem by trying to open the file.
 func (l *httpFileSystemLoader) Exists(name string) bool {
+	if dir, ok := l.fs.(http.Dir); ok {
+		// a directory on disk: look before opening (opening a named pipe blocks until somebody writes).
+		// The path is built the way http.Dir.Open builds it.
+		root := string(dir)
+		if root == "" {
+			root = "."
+		}
+		stat, err := os.Stat(filepath.Join(root, filepath.FromSlash(path.Clean("/"+name))))
+		return err == nil && stat.Mode().IsRegular()
+	}
 	f, err := l.fs.Open(name)
 	if err != nil {
 		return false
